@@ -60,6 +60,7 @@ fn main() {
     if args.is_empty() {
         usage();
     }
+    engine::install_panic_hook();
     // children spawned by C15 re-enter through this binary
     if args[0] == "child" {
         std::process::exit(props::child_main(&args[1..]));
